@@ -311,7 +311,7 @@ class SearchCatalog():
             if not os.path.isfile(path):
                 continue
 
-            ret = re.compile(r"(\S+)\.log\S*").match(path)
+            ret = re.compile(r"(\S+)\.log(?:\.\d+(?:\.gz)?)?$").match(path)
             if not ret:
                 new_contents.append(path)
                 continue
